@@ -428,12 +428,12 @@ def _b64decode_model(data, altchars=None, validate=False):
     a quad is ignored); membership tests fork per element."""
     if altchars is not None:
         raise Unsupported('b64decode altchars')
-    if validate:
-        raise Unsupported('b64decode(validate=True) of symbolic data')
     if isinstance(data, _SSeq):
         src = B64_MEMO.get(_elem_key(data._e))
         if src is not None:
             return src
+    if validate:
+        return _b64decode_strict(data)
     if isinstance(data, (str, SStr)):
         e = elems_of(data)
         for x in e:
@@ -461,6 +461,70 @@ def _b64decode_model(data, altchars=None, validate=False):
         v, ok = _b64_val(c)
         if not d(ok):
             continue
+        pads = 0
+        if quad_pos == 0:
+            quad_pos = 1
+            left = v
+        elif quad_pos == 1:
+            quad_pos = 2
+            out.append(left * 4 + _dv(v, 16))
+            left = v % 16
+        elif quad_pos == 2:
+            quad_pos = 3
+            out.append(left * 16 + _dv(v, 4))
+            left = v % 4
+        else:
+            quad_pos = 0
+            out.append(left * 64 + v)
+            left = 0
+    if not done and quad_pos != 0:
+        if quad_pos == 1:
+            raise _binascii.Error('Invalid base64-encoded string: number of '
+                                  'data characters cannot be 1 more than a '
+                                  'multiple of 4')
+        raise _binascii.Error('Incorrect padding')
+    return mkbytes([z3.simplify(x) if not isinstance(x, int) else x
+                    for x in out])
+
+
+def _b64decode_strict(data):
+    """binascii.a2b_base64(strict_mode=True) of CPython 3.12: only alphabet
+    characters, no leading or discontinuous padding, nothing behind the
+    padding (validated against the real function by the self-test)."""
+    e = elems_of(data)
+    if isinstance(data, (str, SStr)):
+        for x in e:
+            if not isinstance(x, int) and bool(mkbool(x >= 128)):
+                raise ValueError('string argument should contain only ASCII '
+                                 'characters')
+
+    def d(c):
+        return c if isinstance(c, bool) else bool(mkbool(c))
+    n = len(e)
+    if n and d(e[0] == 61):
+        raise _binascii.Error('Leading padding not allowed')
+    out = []
+    quad_pos = 0
+    pads = 0
+    left = 0
+    done = False
+    padding_started = False
+    for i, c in enumerate(e):
+        if d(c == 61):
+            padding_started = True
+            if quad_pos >= 2:
+                pads += 1
+                if quad_pos + pads >= 4:
+                    if i + 1 < n:
+                        raise _binascii.Error('Excess data after padding')
+                    done = True
+                    break
+            continue
+        v, ok = _b64_val(c)
+        if not d(ok):
+            raise _binascii.Error('Only base64 data is allowed')
+        if padding_started:
+            raise _binascii.Error('Discontinuous padding not allowed')
         pads = 0
         if quad_pos == 0:
             quad_pos = 1
